@@ -2,7 +2,11 @@ import RsomeV.M.ConeDual
 
 /-! Order-faithful model of `lp.RoConstr.le_to_rc` (rsome/lp.py): the robust counterpart of a
 block of `m` uncertain `≤`-rows  `Σ_j R[n][j](x)·z_j + a[n](x) ≤ 0  ∀ z ∈ Z`, given the
-*dual form* `S` of the support program (what `forall()` / `minmax()` store in `.support`). -/
+*dual form* `S` of the support program (what `forall()` / `minmax()` store in `.support`).
+
+Random components `j ≥ num_rand = min(nz, S.lp.nr)` (in particular random variables declared after
+the set was formulated, which the support program does not know and hence does not restrict) get
+the fourth block `raffine[:, num_rand:] == 0`: their coefficients must vanish. -/
 
 namespace RsomeV
 open Finset
@@ -23,10 +27,11 @@ structure RoRows (K : Type) where
 /-- the list of constraints `le_to_rc` returns, laid out as one program fragment over the columns
 `[0, nd)` (decisions) and `[nd, nd + m·|S|)` (multipliers `dual_var`, row-major `(n, i)`) -/
 structure RcFragment (K : Type) where
-  prog : ConeProg K          -- rows = constr1 ++ constr2 ++ constr3 in that order; bounds on multipliers only
+  prog : ConeProg K          -- rows = constr1 ++ constr2 ++ constr3 ++ (late == 0) in that order; bounds on multipliers only
   n1 : ℕ                     -- number of rows of each block
   n2 : ℕ
   n3 : ℕ
+  n4 : ℕ                     -- rows of `raffine[:, num_rand:] == 0` (random variables declared after the set)
 
 namespace RoRows
 
@@ -36,12 +41,27 @@ def numRand (R : RoRows K) (S : ConeProg K) : ℕ := min R.nz S.lp.nr
 /-- column of multiplier `(n, i)` -/
 def ycol (R : RoRows K) (S : ConeProg K) (n i : ℕ) : ℕ := R.nd + n * S.lp.nc + i
 
+/-- `extra.linear.nnz > 0 or np.any(extra.const)` for `extra = raffine[:, num_rand:]`: some
+coefficient of a random component `num_rand ≤ j < nz` (a random variable the support program does
+not know: declared after the set was formulated) is structurally non-zero -/
+def latePresent (R : RoRows K) (S : ConeProg K) : Bool :=
+  (List.range R.m).any fun n => (List.range (R.nz - R.numRand S)).any fun jj =>
+    decide (R.Rc n (R.numRand S + jj) ≠ 0) ||
+      (List.range R.nd).any fun d => decide (R.Rl n (R.numRand S + jj) d ≠ 0)
+
+/-- number of rows of the block `raffine[:, num_rand:] == 0` (absent when structurally zero, and
+when `nz ≤ num_rand`) -/
+def n4 (R : RoRows K) (S : ConeProg K) : ℕ :=
+  if R.latePresent S then R.m * (R.nz - R.numRand S) else 0
+
 def leToRc (R : RoRows K) (S : ConeProg K) : RcFragment K :=
   let ss := S.lp.nc
   let nr := R.numRand S
   let n1 := R.m
   let n2 := R.m * nr
   let n3 := R.m * (S.lp.nr - nr)
+  let n4 := R.n4 S
+  let w4 := R.nz - nr
   let nc := R.nd + R.m * ss
   -- decode a multiplier column
   let isY : ℕ → Bool := fun c => decide (R.nd ≤ c ∧ c < nc)
@@ -53,21 +73,26 @@ def leToRc (R : RoRows K) (S : ConeProg K) : RcFragment K :=
     else if r < n1 + n2 then
       (if c < R.nd then R.Rl ((r - n1) / nr) ((r - n1) % nr) c * S.lp.b ((r - n1) % nr)
        else if isY c ∧ yn c = (r - n1) / nr then S.lp.a ((r - n1) % nr) (yi c) else 0)
-    else
+    else if r < n1 + n2 + n3 then
       (if c < R.nd then 0
        else if isY c ∧ yn c = (r - n1 - n2) / (S.lp.nr - nr) then
          S.lp.a (nr + (r - n1 - n2) % (S.lp.nr - nr)) (yi c) else 0)
+    else
+      -- `raffine[:, num_rand:] == 0`, flattened row-major `(n, j)`
+      (if c < R.nd then R.Rl ((r - n1 - n2 - n3) / w4) (nr + (r - n1 - n2 - n3) % w4) c else 0)
   let b : ℕ → K := fun r =>
     if r < n1 then - R.ac r
     else if r < n1 + n2 then
       - (R.Rc ((r - n1) / nr) ((r - n1) % nr) * S.lp.b ((r - n1) % nr))
-    else 0
+    else if r < n1 + n2 + n3 then 0
+    else - R.Rc ((r - n1 - n2 - n3) / w4) (nr + (r - n1 - n2 - n3) % w4)
   let eq : ℕ → Bool := fun r =>
     if r < n1 then false
     else if r < n1 + n2 then S.lp.eq ((r - n1) % nr)
-    else S.lp.eq (nr + (r - n1 - n2) % (S.lp.nr - nr))
+    else if r < n1 + n2 + n3 then S.lp.eq (nr + (r - n1 - n2) % (S.lp.nr - nr))
+    else true
   { prog :=
-      { lp := { nr := n1 + n2 + n3, nc := nc, a := a, b := b, eq := eq
+      { lp := { nr := n1 + n2 + n3 + n4, nc := nc, a := a, b := b, eq := eq
                 -- `dual_var[:, support.ub == 0] <= 0`, `dual_var[:, support.lb == 0] >= 0`
                 ub := fun c => if isY c ∧ S.lp.ub (yi c) = some 0 then some 0 else none
                 lb := fun c => if isY c ∧ S.lp.lb (yi c) = some 0 then some 0 else none
@@ -76,7 +101,7 @@ def leToRc (R : RoRows K) (S : ConeProg K) : RcFragment K :=
         -- one cone per support cone and row n, on the multiplier columns of row n
         qmat := (List.range R.m).flatMap fun n => S.qmat.map fun q => q.map fun i => R.ycol S n i
         xmat := (List.range R.m).flatMap fun n => S.xmat.map fun e => e.map fun i => R.ycol S n i }
-    n1 := n1, n2 := n2, n3 := n3 }
+    n1 := n1, n2 := n2, n3 := n3, n4 := n4 }
 
 /-- the uncertain row `n` evaluated at a decision/multiplier assignment `v` and realisation `z` -/
 def eval (R : RoRows K) (n : ℕ) (v z : ℕ → K) : K :=
